@@ -16,6 +16,8 @@ CONSTANTS Mode,      \* "c01" | "c04" | "c05" | "c07" | "c08" | "c09" | "c10"
 \* readable byte strings
 a == <<97>>   ab == <<97, 98>>   abc == <<97, 98, 99>>   bb == <<98>>   ba == <<98, 97>>
 c1 == <<99, 49>>   c2 == <<99, 50>>   dd == <<100>>   BU == <<66>>
+D16a == <<57,48,48,55,49,57,57,50,53,52,55,52,48,57,57,51>>       \* 9007199254740993 = 2^53 + 1
+D16b == <<52,53,48,51,53,57,57,54,50,55,51,55,48,52,57,55>>       \* 4503599627370497 = 2^52 + 1
 Dig(n) == IntText(n)
 
 NoLim == [has |-> FALSE, s |-> 0, n |-> 0]
@@ -79,8 +81,12 @@ NumChains == { ABin("=", ABin("-", ABin("-", IV, AInt(1)), AInt(2)), AInt(0)), A
                ABin(">", ABin("-", ABin("-", AInt(10), IV), AInt(1)), AInt(2)), ABin("=", ABin("+", ABin("-", Call1("strlen", AKey), AInt(1)), AInt(1)), AInt(2)),
                ABin("=", ABin("*", ABin("/", AInt(8), AInt(2)), IV), AInt(8)), ABin("<", ABin("-", ABin("*", IV, AInt(2)), ABin("*", AInt(1), AInt(3))), AInt(2)),
                ABin("=", ABin("+", ABin("+", AKey, AStr(<<45>>)), AVal), AStr(<<97, 45, 49>>)) }
+BigPreds == { ABin(op, IV, Call1("int", AStr(D16a))) : op \in {"=", "!=", ">", "<="} }
+            \cup { ABin(">", IV, Call1("int", AStr(<<57,48,48,55,49,57,57,50,53,52,55,52,48,57,57,50>>))), ABin("<", IV, AInt(4)), ABin("=", Call1("str", IV), AVal),
+                   ABetween(IV, AInt(3), Call1("int", AStr(D16b))), AIn(IV, <<Call1("int", AStr(D16a)), AInt(7)>>) }
 C01Cases ==
-  { [st |-> Select(<<>>, w, <<>>, <<>>, NoLim), sid |-> "I"] : w \in NumChains \cup { ABin(op, x, y) : op \in {"&", "or"}, x \in NumChains, y \in {ABin("^=", AKey, AStr(a))} } }
+  { [st |-> Select(<<>>, w, <<>>, <<>>, NoLim), sid |-> sid] : w \in BigPreds, sid \in {"BA", "B"} }
+  \cup { [st |-> Select(<<>>, w, <<>>, <<>>, NoLim), sid |-> "I"] : w \in NumChains \cup { ABin(op, x, y) : op \in {"&", "or"}, x \in NumChains, y \in {ABin("^=", AKey, AStr(a))} } }
   \cup
   { [st |-> Select(<<>>, w, <<>>, <<>>, NoLim), sid |-> "T"] : w \in StrAtoms \cup Combos(SmallStr) }
   \cup { [st |-> Select(<<>>, w, <<>>, <<>>, NoLim), sid |-> "I"] : w \in NumAtoms(NumLefts) \cup Combos(SmallNum \cup SmallStr) }
@@ -138,6 +144,8 @@ FuncExprs ==
   \cup { Call2("split", x, AStr(sep)) : x \in TArgs \cup RowT, sep \in {Comma, <<32>>, <<98>>, <<44, 98>>} }
   \cup { Call1("len", Call2("split", x, AStr(Comma))) : x \in TArgs \cup RowT }
   \cup { Call1("len", x) : x \in {AStr(<<>>), AStr(abc), AKey, AVal} }
+  \cup { Call1(f, Call1("len", SplitV)) : f \in {"str", "strlen", "int", "float", "is_int"} }
+  \cup { ACall("join", <<AStr(Comma), AKey, Call1("len", SplitV)>>), ABin("+", Call1("len", SplitV), AInt(1)), ABin("*", Call1("len", SplitV), AFlt(1, 1)) }
   \cup { AIdx(Call2("split", x, AStr(Comma)), AInt(n)) : x \in {AStr(<<97, 44, 98, 44, 99>>), AVal}, n \in {0, 1, 2} }
   \cup { ACall("join", <<AStr(sep), x, y>>) : sep \in {Comma, <<>>, <<45, 45>>}, x \in {AStr(a), AKey, AInt(7)}, y \in {AStr(<<>>), AVal, AInt(12)} }
   \cup { ACall("join", <<AStr(Comma), AIdx(SplitV, AInt(0)), AIdx(SplitV, AInt(1)), AIdx(SplitV, AInt(2))>>) }
@@ -247,7 +255,13 @@ BoolSimp == { ABin(op, x, y) : op \in {"&", "|", "and", "or"}, x \in {CT, CF, PK
                    ABin("=", ABin("+", AStr(a), AStr(bb)), AKey), ABin("<", Call1("strlen", AKey), ABin("+", AInt(1), AInt(1))) }
 C04Preds == { [st |-> Select(<<>>, ABin(op, l, k), <<>>, <<>>, NoLim), sid |-> "F"] : op \in {">", "=", "<="}, l \in {Call1("float", AVal)}, k \in K1 }
             \cup { [st |-> Select(<<>>, w, <<>>, <<>>, NoLim), sid |-> "F"] : w \in BoolSimp }
-C04Cases == C04Fields \cup C04Preds
+C04Not == { [st |-> Select(<<>>, ANot(ABin(op, l, k)), <<>>, <<>>, NoLim), sid |-> "F"] :
+              op \in {"<=", "<", ">=", ">", "=", "!="}, l \in {Call1("float", AVal)}, k \in {AFlt(3, 1), AInt(3), AFlt(1, 2)} }
+          \cup { [st |-> Select(<<>>, ABin("&", ANot(ABin(op, Call1("strlen", AKey), AInt(2))), PK), <<>>, <<>>, NoLim), sid |-> "F"] : op \in {"<=", "<", ">=", ">"} }
+C04Names == { [st |-> Select(<<F(AKey, "d"), F(AVal, "d"), F(ABin("+", AName("d"), AStr(<<33>>)), "e")>>, All, <<>>, <<>>, NoLim), sid |-> "F"],
+              [st |-> Select(<<F(AKey, ""), F(ACall("join", <<AStr(<<45>>), AStr(a), AStr(bb)>>), "j1"), F(ACall("join", <<AStr(<<45, 39, 44, 32, 39, 97>>), AStr(bb)>>), "j2")>>, All, <<>>, <<>>, NoLim), sid |-> "F"],
+              [st |-> Select(<<F(AKey, ""), F(ACall("join", <<AStr(<<45, 39, 44, 32, 39, 97>>), AStr(bb)>>), "j2"), F(ACall("join", <<AStr(<<45>>), AStr(a), AStr(bb)>>), "j1")>>, All, <<>>, <<>>, NoLim), sid |-> "F"] }
+C04Cases == C04Fields \cup C04Preds \cup C04Not \cup C04Names
 
 -----------------------------------------------------------------------------
 (* c08: LIMIT grid.  Offsets and counts around multiples of every batch size the harness uses
@@ -271,6 +285,8 @@ C08Select ==
   { [st |-> WithLim(bs, s, n), sid |-> SizeId(sz)] :
        bs \in {LimPlain(KAll), LimPlain(KSome), LimOrdered(KAll), LimAggr(KAll), LimAggrOrd(KAll), LimAggrAll(KAll), LimAlias(KAll)}, s \in GridSmall, n \in GridSmall, sz \in SizesSmall }
   \cup { [st |-> WithLim(LimAlias(KAll), s, n), sid |-> SizeId(sz)] : s \in {1, 3, 31, 32, 33}, n \in {1, 5, 32, 33}, sz \in {33, 65} }
+  \cup { [st |-> WithLim(bs, s, 2000000000), sid |-> SizeId(sz)] :
+            bs \in {LimPlain(KAll), LimPlain(KSome), LimOrdered(KAll), LimAggr(KAll), LimAggrOrd(KAll), LimAggrAll(KAll), LimAlias(KAll)}, s \in {0, 1, 3, 33}, sz \in {4, 33} }
   \cup { [st |-> WithLim(bs, s, n), sid |-> SizeId(sz)] :
        bs \in {LimPlain(KAll), LimPlain(KSome)}, s \in GridBig, n \in GridBig, sz \in (IF Scale >= 2 THEN SizesBig ELSE {32, 33, 65}) }
   \cup { [st |-> WithLim(bs, s, n), sid |-> SizeId(sz)] :
@@ -279,6 +295,12 @@ C08Delete ==
   { [st |-> Stmt("delete", <<>>, w, <<>>, <<>>, Lim(s, n)), sid |-> SizeId(sz)] : w \in {KAll, KSome}, s \in GridSmall, n \in GridSmall, sz \in SizesSmall \ {0} }
   \cup { [st |-> Stmt("delete", <<>>, w, <<>>, <<>>, Lim(s, n)), sid |-> SizeId(sz)] : w \in {KAll, KSome}, s \in {0, 31, 32, 33, 64}, n \in {1, 32, 33}, sz \in {33, 65} }
   \cup C08DPt
+  \cup { [st |-> Stmt("delete", <<>>, w, <<>>, <<>>, Lim(s, 2000000000)), sid |-> SizeId(sz)] : w \in {KAll, KSome}, s \in {0, 2}, sz \in {4, 33} }
+  \* clauses whose list items / patterns come from the pair itself, with and without LIMIT (store T holds ab -> 'ab')
+  \cup { [st |-> Stmt("delete", <<>>, w, <<>>, <<>>, lim), sid |-> "T"] :
+            w \in { AIn(AKey, <<AStr(a), AVal>>), AIn(AKey, <<AVal, AStr(c1), AStr(<<122>>)>>), ABin("~=", AKey, AVal), ABin("&", ABin("~=", AKey, ABin("+", AStr(<<94>>), AVal)), ABin("!=", AKey, AStr(<<122>>))),
+                    ABin("|", AIn(AKey, <<AStr(c2), AVal>>), ABin("=", AKey, AStr(a))) },
+            lim \in {NoLim, Lim(0, 1), Lim(1, 1), Lim(0, 5)} }
 
 -----------------------------------------------------------------------------
 (* c07: ORDER BY *)
@@ -289,6 +311,7 @@ OrdFields == << F(AKey, ""), F(AVal, ""), F(Call1("float", AVal), "f"), F(Call1(
 OrdVecs == { <<O(f1, d1)>> : f1 \in 1..6, d1 \in BOOLEAN }
            \cup { <<O(f1, d1), O(f2, d2)>> : f1 \in {2, 3, 4, 6}, f2 \in {1, 2, 5, 6}, d1 \in BOOLEAN, d2 \in BOOLEAN }
            \cup { <<O(4, d1), O(6, d2), O(1, d3)>> : d1 \in BOOLEAN, d2 \in BOOLEAN, d3 \in BOOLEAN }
+           \cup { <<O(f, d1), O(f, ~d1), O(1, d3)>> : f \in {2, 6}, d1 \in BOOLEAN, d3 \in BOOLEAN }
 OrdWheres == { All, ABin("!=", AVal, AStr(<<120>>)) }
 C07Plain == { [st |-> Select(OrdFields, w, ov, <<>>, NoLim), sid |-> "O"] : w \in OrdWheres, ov \in OrdVecs }
             \cup { [st |-> Select(<<>>, All, ov, <<>>, NoLim), sid |-> sid] : ov \in { <<O(1, FALSE)>>, <<O(1, TRUE)>>, <<O(2, FALSE)>>, <<O(2, TRUE), O(1, TRUE)>> }, sid \in {"O", "T", "I", "E"} }
@@ -364,8 +387,6 @@ C09Quantile == { [st |-> Select(<<F(Call2("quantile", x, q), "q"), F(Call1("coun
                    x \in {Call1("int", AVal), Call1("float", AVal), AVal}, q \in QPcts, sid \in {"I", "E"} }
                \cup { [st |-> Select(<<F(AVal, "g"), F(Call2("quantile", Call1("strlen", AKey), q), "q")>>, All, <<>>, <<1>>, NoLim), sid |-> "G"] : q \in QPcts }
 \* integers beyond 2^53: sums and means keep every digit (the integer accumulator, not a float one)
-D16a == <<57,48,48,55,49,57,57,50,53,52,55,52,48,57,57,51>>       \* 9007199254740993 = 2^53 + 1
-D16b == <<52,53,48,51,53,57,57,54,50,55,51,55,48,52,57,55>>       \* 4503599627370497 = 2^52 + 1
 StoreBA == << SP(<<97, 49>>, D16a), SP(<<97, 50>>, Dig(1)), SP(<<98, 49>>, D16b), SP(<<98, 50>>, D16b), SP(<<99, 49>>, Dig(7)), SP(<<99, 50>>, D16a), SP(<<99, 51>>, Dig(2)), SP(<<99, 52>>, Dig(2)) >>
 C09BigInts == { [st |-> Select(<<F(ACall("substr", <<AKey, AInt(0), AInt(1)>>), "p"), f>>, All, <<>>, <<1>>, NoLim), sid |-> "BA"] :
                   f \in { F(Call1("sum", Call1("int", AVal)), "s"), F(Call1("avg", Call1("int", AVal)), "a"), F(Call1("sum", AVal), "sv"), F(Call1("avg", AVal), "av"), F(Call1("count", AInt(1)), "c") } }
